@@ -306,15 +306,17 @@ pub fn run_server_model(cfg: &ScenCfg, out: &mut RunOut) {
         let mut pos = 0;
         for c in &cuts {
             if pos > 0 && chance(1, 6) {
-                let mut fut = Box::pin(rig.handle.set_decode_level(decode_level(choose(36) as u8)));
-                let _ = kernel::block_on(fut.as_mut());
-                out.probe("command_mid_frame");
+                // (sent without waiting: the RTU server does not read its queue while it is in a transaction, and
+                // waiting for room in a full queue would let virtual time pass in this run only)
+                if kernel::try_now(rig.handle.set_decode_level(decode_level(choose(36) as u8))).is_some() {
+                    out.probe("command_mid_frame");
+                }
             }
             if let Some((k, lvl)) = cfg.decode.change_at {
                 if k == action {
-                    let mut fut = Box::pin(rig.handle.set_decode_level(decode_level(lvl)));
-                    let _ = kernel::block_on(fut.as_mut());
-                    out.probe("decode_change_injected");
+                    if kernel::try_now(rig.handle.set_decode_level(decode_level(lvl))).is_some() {
+                        out.probe("decode_change_injected");
+                    }
                 }
             }
             action += 1;
@@ -452,9 +454,9 @@ pub fn run_server_model(cfg: &ScenCfg, out: &mut RunOut) {
                     if a > kernel::now_ns() {
                         kernel::advance_to(a);
                     }
-                    let mut fut = Box::pin(rig.handle.set_decode_level(decode_level(choose(36) as u8)));
-                    let _ = kernel::block_on(fut.as_mut());
-                    out.probe("command_during_reopen_wait");
+                    if kernel::try_now(rig.handle.set_decode_level(decode_level(choose(36) as u8))).is_some() {
+                        out.probe("command_during_reopen_wait");
+                    }
                 }
             }
             // the planned level change of the paired runs (C20) may fall into the wait as well
@@ -464,10 +466,10 @@ pub fn run_server_model(cfg: &ScenCfg, out: &mut RunOut) {
                     if t > now + 1 {
                         kernel::advance_to(now + (t - now) / 2);
                     }
-                    let mut fut = Box::pin(rig.handle.set_decode_level(decode_level(lvl)));
-                    let _ = kernel::block_on(fut.as_mut());
-                    out.probe("decode_change_injected");
-                    out.probe("decode_change_during_reopen_wait");
+                    if kernel::try_now(rig.handle.set_decode_level(decode_level(lvl))).is_some() {
+                        out.probe("decode_change_injected");
+                        out.probe("decode_change_during_reopen_wait");
+                    }
                 }
             }
             action += 1;
@@ -512,6 +514,7 @@ pub fn run_server_model(cfg: &ScenCfg, out: &mut RunOut) {
         "retry_min_ms": retry_min / MS, "frames": samples}));
     out.observable.extend(format!("{:?}", rig.journal.lock().unwrap()).into_bytes());
     out.observable.extend(format!("{:?}", serial::opens(PATH).iter().map(|o| (o.at, o.ok)).collect::<Vec<_>>()).into_bytes());
+    out.observable.extend(format!("{:?}", serial::writes(PATH)).into_bytes());
     {
         let mut fut = Box::pin(rig.handle.shutdown());
         let _ = kernel::block_on(fut.as_mut());
